@@ -2,6 +2,8 @@
 
 package agent
 
+//@ ghost var c17relay int
+
 // Machine-checked contracts for /verif (govc). Comment-only, compiled only
 // with -tags verif; changes no behaviour.
 
@@ -55,8 +57,15 @@ package agent
 // ---- C20: the port-forward key handed to the endpoint is exactly the text after the "forward:" prefix ----
 
 //@ func (*Agent).handleStreamOpen
-//@ prop C20
-//@ modifies *
+//@ prop C20 C17
+//@ modifies *, c17relay
+//@ ghostinit c17relay = 0
+//@ after call (*relayTable).Insert set c17relay = 1
+//@ at call (*relayTable).Insert let c17next = $1.DownstreamPeer
+//@ after call SendToPeer set c17relay = ite(c17relay == 1 && $ret == nil && $1 == c17next, 2, c17relay)
+//@ after call (*relayTable).Delete set c17relay = ite(c17relay == 1, 0, c17relay)
+//@ ensures[C17] c17relay != 1
+//@ note C17: once a relay entry has been inserted, the function returns only after the OPEN was handed to the next hop (the entry is then owned by the tunnel and removed by its close/reset/error or by the peer's disconnect) or after the entry was deleted again
 //@ at call forward.(*Handler).HandleStreamOpen assert hasprefix(destAddr, protocol.ForwardStreamPrefix) && $5 == destAddr[len(protocol.ForwardStreamPrefix):]
 //@ note C03: every responder is handed the request id and the initiator's public key of the received STREAM_OPEN; a transit forwards both unchanged
 //@ after call protocol.DecodeStreamOpen let c03in = $ret0
@@ -688,16 +697,30 @@ package agent
 //@ at[C04] call SendToPeer assert !c04data($2.Type)
 
 //@ func (*Agent).handleUDPOpen
-//@ prop C03
-//@ modifies *
+//@ prop C03 C17
+//@ modifies *, c17relay
+//@ ghostinit c17relay = 0
+//@ after call (*relayTable).Insert set c17relay = 1
+//@ at call (*relayTable).Insert let c17next = $1.DownstreamPeer
+//@ after call SendToPeer set c17relay = ite(c17relay == 1 && $ret == nil && $1 == c17next, 2, c17relay)
+//@ after call (*relayTable).Delete set c17relay = ite(c17relay == 1, 0, c17relay)
+//@ ensures[C17] c17relay != 1
+//@ note C17: once a relay entry has been inserted, the function returns only after the OPEN was handed to the next hop (the entry is then owned by the tunnel and removed by its close/reset/error or by the peer's disconnect) or after the entry was deleted again
 //@ after call protocol.DecodeUDPOpen let c03in = $ret0
 //@ at call udp.(*Handler).HandleUDPOpen assert $4 == c03in && $5 == c03in.EphemeralPubKey
 //@ at call (*UDPOpen).Encode assert $0.RequestID == c03in.RequestID && $0.EphemeralPubKey == c03in.EphemeralPubKey
 //@ at[C04] call SendToPeer assert !c04data($2.Type)
 
 //@ func (*Agent).handleICMPOpen
-//@ prop C03
-//@ modifies *
+//@ prop C03 C17
+//@ modifies *, c17relay
+//@ ghostinit c17relay = 0
+//@ after call (*relayTable).Insert set c17relay = 1
+//@ at call (*relayTable).Insert let c17next = $1.DownstreamPeer
+//@ after call SendToPeer set c17relay = ite(c17relay == 1 && $ret == nil && $1 == c17next, 2, c17relay)
+//@ after call (*relayTable).Delete set c17relay = ite(c17relay == 1, 0, c17relay)
+//@ ensures[C17] c17relay != 1
+//@ note C17: once a relay entry has been inserted, the function returns only after the OPEN was handed to the next hop (the entry is then owned by the tunnel and removed by its close/reset/error or by the peer's disconnect) or after the entry was deleted again
 //@ after call protocol.DecodeICMPOpen let c03in = $ret0
 //@ at call icmp.(*Handler).HandleICMPOpen assert $4 == c03in && $5 == c03in.EphemeralPubKey
 //@ at call (*ICMPOpen).Encode assert $0.RequestID == c03in.RequestID && $0.EphemeralPubKey == c03in.EphemeralPubKey
